@@ -1,5 +1,5 @@
 #![feature(allocator_api)]
-// Unit BASIC: simple documented functions — get, size, ?, default, and, or, not, xor, first, last, all, any, pop, push, put, insert_if_absent, replace_if_exists, entries, range, push_front, pop_first (C04, C05)
+// Unit BASIC: simple documented functions — get, size, ?, default, and, or, not, xor, first, last, all, any, pop, push, put, insert_if_absent, replace_if_exists, entries, range, push_front, pop_first, the seven type checks and five casts (C04, C05)
 use vstd::prelude::*;
 use std::rc::Rc;
 use vstd::std_specs::iter::IteratorSpec;
@@ -589,6 +589,210 @@ impl Get for Impl {
                                     new_list@ == lst@.subrange(1, if it.index@ < 1 { 1 } else { it.index@ }),
 //@@ after "new_list.push(val.clone());"
                                     proof { assert(lst@.subrange(1, it.index@).push(lst@[it.index@]) =~= lst@.subrange(1, it.index@ + 1)); }
+//@@ endfn
+}
+}
+
+pub mod f_is_array {
+use super::*;
+broadcast use {group_json_names, cl::group_clone_is_copy, group_json_eq, axiom_byte_len};
+//@@ item src/functions/type_group/check_types/is_array.rs :: fn get :: struct Impl
+//@@ rewrite pub_tuple pub_struct
+//@@ enditem
+impl Get for Impl {
+    open spec fn get_spec(&self, value: &Context) -> Option<JsonValue> {
+        { let o = arg(self.0@, value, 0); Some(jbool(o matches Some(JsonValue::Array(_)))) }
+    }
+//@@ fn f.is_array = src/functions/type_group/check_types/is_array.rs :: fn get :: impl Get for Impl :: fn get
+//@@ safety C04 C05
+//@@ post doc "(array? a): true exactly when a is a list; false otherwise, also when a is absent"
+//@@ endfn
+}
+}
+
+pub mod f_is_bool {
+use super::*;
+broadcast use {group_json_names, cl::group_clone_is_copy, group_json_eq, axiom_byte_len};
+//@@ item src/functions/type_group/check_types/is_bool.rs :: fn get :: struct Impl
+//@@ rewrite pub_tuple pub_struct
+//@@ enditem
+impl Get for Impl {
+    open spec fn get_spec(&self, value: &Context) -> Option<JsonValue> {
+        { let o = arg(self.0@, value, 0); Some(jbool(o matches Some(JsonValue::Boolean(_)))) }
+    }
+//@@ fn f.is_bool = src/functions/type_group/check_types/is_bool.rs :: fn get :: impl Get for Impl :: fn get
+//@@ safety C04 C05
+//@@ post doc "(bool? a): true exactly when a is a boolean; false otherwise, also when a is absent"
+//@@ endfn
+}
+}
+
+pub mod f_is_empty {
+use super::*;
+broadcast use {group_json_names, cl::group_clone_is_copy, group_json_eq, axiom_byte_len};
+//@@ item src/functions/type_group/check_types/is_empty.rs :: fn get :: struct Impl
+//@@ rewrite pub_tuple pub_struct
+//@@ enditem
+impl Get for Impl {
+    open spec fn get_spec(&self, value: &Context) -> Option<JsonValue> {
+        { let o = arg(self.0@, value, 0); Some(jbool(o is None)) }
+    }
+//@@ fn f.is_empty = src/functions/type_group/check_types/is_empty.rs :: fn get :: impl Get for Impl :: fn get
+//@@ safety C04 C05
+//@@ post doc "(empty? a): true exactly when a gives nothing"
+//@@ endfn
+}
+}
+
+pub mod f_is_null {
+use super::*;
+broadcast use {group_json_names, cl::group_clone_is_copy, group_json_eq, axiom_byte_len};
+//@@ item src/functions/type_group/check_types/is_null.rs :: fn get :: struct Impl
+//@@ rewrite pub_tuple pub_struct
+//@@ enditem
+impl Get for Impl {
+    open spec fn get_spec(&self, value: &Context) -> Option<JsonValue> {
+        { let o = arg(self.0@, value, 0); Some(jbool(o == Some(JsonValue::Null))) }
+    }
+//@@ fn f.is_null = src/functions/type_group/check_types/is_null.rs :: fn get :: impl Get for Impl :: fn get
+//@@ safety C04 C05
+//@@ post doc "(null? a): true exactly when a is null; false otherwise, also when a is absent"
+//@@ endfn
+}
+}
+
+pub mod f_is_number {
+use super::*;
+broadcast use {group_json_names, cl::group_clone_is_copy, group_json_eq, axiom_byte_len};
+//@@ item src/functions/type_group/check_types/is_number.rs :: fn get :: struct Impl
+//@@ rewrite pub_tuple pub_struct
+//@@ enditem
+impl Get for Impl {
+    open spec fn get_spec(&self, value: &Context) -> Option<JsonValue> {
+        { let o = arg(self.0@, value, 0); Some(jbool(o matches Some(JsonValue::Number(_)))) }
+    }
+//@@ fn f.is_number = src/functions/type_group/check_types/is_number.rs :: fn get :: impl Get for Impl :: fn get
+//@@ safety C04 C05
+//@@ post doc "(number? a): true exactly when a is a number; false otherwise, also when a is absent"
+//@@ endfn
+}
+}
+
+pub mod f_is_object {
+use super::*;
+broadcast use {group_json_names, cl::group_clone_is_copy, group_json_eq, axiom_byte_len};
+//@@ item src/functions/type_group/check_types/is_object.rs :: fn get :: struct Impl
+//@@ rewrite pub_tuple pub_struct
+//@@ enditem
+impl Get for Impl {
+    open spec fn get_spec(&self, value: &Context) -> Option<JsonValue> {
+        { let o = arg(self.0@, value, 0); Some(jbool(o matches Some(JsonValue::Object(_)))) }
+    }
+//@@ fn f.is_object = src/functions/type_group/check_types/is_object.rs :: fn get :: impl Get for Impl :: fn get
+//@@ safety C04 C05
+//@@ post doc "(object? a): true exactly when a is an object; false otherwise, also when a is absent"
+//@@ endfn
+}
+}
+
+pub mod f_is_string {
+use super::*;
+broadcast use {group_json_names, cl::group_clone_is_copy, group_json_eq, axiom_byte_len};
+//@@ item src/functions/type_group/check_types/is_string.rs :: fn get :: struct Impl
+//@@ rewrite pub_tuple pub_struct
+//@@ enditem
+impl Get for Impl {
+    open spec fn get_spec(&self, value: &Context) -> Option<JsonValue> {
+        { let o = arg(self.0@, value, 0); Some(jbool(o matches Some(JsonValue::String(_)))) }
+    }
+//@@ fn f.is_string = src/functions/type_group/check_types/is_string.rs :: fn get :: impl Get for Impl :: fn get
+//@@ safety C04 C05
+//@@ post doc "(string? a): true exactly when a is a string; false otherwise, also when a is absent"
+//@@ endfn
+}
+}
+
+pub mod f_as_array {
+use super::*;
+broadcast use {group_json_names, cl::group_clone_is_copy, group_json_eq, axiom_byte_len};
+//@@ item src/functions/type_group/cast/as_array.rs :: fn get :: struct Impl
+//@@ rewrite pub_tuple pub_struct
+//@@ enditem
+impl Get for Impl {
+    open spec fn get_spec(&self, value: &Context) -> Option<JsonValue> {
+        match arg(self.0@, value, 0) { Some(v) => if v matches JsonValue::Array(_) { Some(v) } else { None }, None => None }
+    }
+//@@ fn f.as_array = src/functions/type_group/cast/as_array.rs :: fn get :: impl Get for Impl :: fn get
+//@@ safety C04 C05
+//@@ post doc "(as_array a): a when it is a list, nothing otherwise"
+//@@ endfn
+}
+}
+
+pub mod f_as_bool {
+use super::*;
+broadcast use {group_json_names, cl::group_clone_is_copy, group_json_eq, axiom_byte_len};
+//@@ item src/functions/type_group/cast/as_bool.rs :: fn get :: struct Impl
+//@@ rewrite pub_tuple pub_struct
+//@@ enditem
+impl Get for Impl {
+    open spec fn get_spec(&self, value: &Context) -> Option<JsonValue> {
+        match arg(self.0@, value, 0) { Some(v) => if v matches JsonValue::Boolean(_) { Some(v) } else { None }, None => None }
+    }
+//@@ fn f.as_bool = src/functions/type_group/cast/as_bool.rs :: fn get :: impl Get for Impl :: fn get
+//@@ safety C04 C05
+//@@ post doc "(as_boolean a): a when it is a boolean, nothing otherwise"
+//@@ endfn
+}
+}
+
+pub mod f_as_number {
+use super::*;
+broadcast use {group_json_names, cl::group_clone_is_copy, group_json_eq, axiom_byte_len};
+//@@ item src/functions/type_group/cast/as_number.rs :: fn get :: struct Impl
+//@@ rewrite pub_tuple pub_struct
+//@@ enditem
+impl Get for Impl {
+    open spec fn get_spec(&self, value: &Context) -> Option<JsonValue> {
+        match arg(self.0@, value, 0) { Some(v) => if v matches JsonValue::Number(_) { Some(v) } else { None }, None => None }
+    }
+//@@ fn f.as_number = src/functions/type_group/cast/as_number.rs :: fn get :: impl Get for Impl :: fn get
+//@@ safety C04 C05
+//@@ post doc "(as_number a): a when it is a number, nothing otherwise"
+//@@ endfn
+}
+}
+
+pub mod f_as_object {
+use super::*;
+broadcast use {group_json_names, cl::group_clone_is_copy, group_json_eq, axiom_byte_len};
+//@@ item src/functions/type_group/cast/as_object.rs :: fn get :: struct Impl
+//@@ rewrite pub_tuple pub_struct
+//@@ enditem
+impl Get for Impl {
+    open spec fn get_spec(&self, value: &Context) -> Option<JsonValue> {
+        match arg(self.0@, value, 0) { Some(v) => if v matches JsonValue::Object(_) { Some(v) } else { None }, None => None }
+    }
+//@@ fn f.as_object = src/functions/type_group/cast/as_object.rs :: fn get :: impl Get for Impl :: fn get
+//@@ safety C04 C05
+//@@ post doc "(as_object a): a when it is an object, nothing otherwise"
+//@@ endfn
+}
+}
+
+pub mod f_as_string {
+use super::*;
+broadcast use {group_json_names, cl::group_clone_is_copy, group_json_eq, axiom_byte_len};
+//@@ item src/functions/type_group/cast/as_string.rs :: fn get :: struct Impl
+//@@ rewrite pub_tuple pub_struct
+//@@ enditem
+impl Get for Impl {
+    open spec fn get_spec(&self, value: &Context) -> Option<JsonValue> {
+        match arg(self.0@, value, 0) { Some(v) => if v matches JsonValue::String(_) { Some(v) } else { None }, None => None }
+    }
+//@@ fn f.as_string = src/functions/type_group/cast/as_string.rs :: fn get :: impl Get for Impl :: fn get
+//@@ safety C04 C05
+//@@ post doc "(as_string a): a when it is a string, nothing otherwise"
 //@@ endfn
 }
 }
